@@ -3,24 +3,24 @@
 package node
 
 import (
-	"sync/atomic"
 	"ergo.services/ergo/app/system"
 	"ergo.services/ergo/gen"
 	"ergo.services/ergo/lib"
+	"sync/atomic"
 )
 
 // cmBehavior is the fake process behaviour of the concurrency harnesses: its callbacks carry the
 // overlap monitor (in == 0 on entry) and count what they handle in shared monitor cells.
 type cmBehavior struct {
 	p        *process
-	in       int     // 1 while a callback of this process is executing
-	handled  [4]int  // per message tag: how often it was handled (capped at 2)
-	terms    int     // how often ProcessTerminate ran (capped at 2)
-	termKill int     // ProcessTerminate saw TerminateReasonKill
-	afterEnd int     // a ProcessRun entered after ProcessTerminate
-	failTag  int     // handler returns an error when it handles this tag (-1 never)
-	callTag  int     // handler makes a synchronous request (which times out) when it handles this tag (-1 never)
-	queue    int     // which mailbox queue this behaviour serves: 0 main, 1 system (High), 2 urgent (Max)
+	in       int    // 1 while a callback of this process is executing
+	handled  [4]int // per message tag: how often it was handled (capped at 2)
+	terms    int    // how often ProcessTerminate ran (capped at 2)
+	termKill int    // ProcessTerminate saw TerminateReasonKill
+	afterEnd int    // a ProcessRun entered after ProcessTerminate
+	failTag  int    // handler returns an error when it handles this tag (-1 never)
+	callTag  int    // handler makes a synchronous request (which times out) when it handles this tag (-1 never)
+	queue    int    // which mailbox queue this behaviour serves: 0 main, 1 system (High), 2 urgent (Max)
 }
 
 func (b *cmBehavior) enter() {
@@ -158,8 +158,8 @@ func VerifC01Gate() {
 	})
 }
 
-// VerifC04Race (concurrency mode): a link or monitor request by pid (real process.LinkPID /
-// MonitorPID -> node.RouteLinkPID / RouteMonitorPID -> default target manager) races with the
+// VerifC04Race (concurrency mode): a link or monitor request by pid, registered name or alias (real
+// process API -> node.Route{Link,Monitor}{PID,ProcessID,Alias} -> default target manager) races with the
 // target's termination (real node.unregisterProcess: table removal, RouteTerminatePID, target
 // manager clean-up). For every interleaving of their shared accesses: a request that reported
 // success is notified exactly once when the target has gone; a request that reported an error is
@@ -167,11 +167,23 @@ func VerifC01Gate() {
 func VerifC04Race() {
 	lib.VerifClockAdvance(0)
 	n := vfNode()
-	target, _ := vfProc(n, 2000, "", gen.ProcessStateSleep, 0)
+	kind := lib.VerifParam("target", 0) // 0: by pid, 1: by registered name, 2: by alias
+	var name gen.Atom
+	if kind == 1 {
+		name = "t"
+	}
+	target, _ := vfProc(n, 2000, name, gen.ProcessStateSleep, 0)
 	consumer, _ := vfProc(n, 2001, "", gen.ProcessStateRunning, 0)
 	target.application = system.Name // keeps the node's shutdown wait-group out of the picture
+	alias := gen.Alias{Node: n.name, Creation: n.creation, ID: [3]uint64{77, 0, 0}}
+	if kind == 2 {
+		target.aliases = append(target.aliases, alias)
+		n.aliases.Store(alias, target)
+	}
 	lib.VerifGuarded(n.targetManager) // relation tables behind the manager's RWMutex
 	lib.VerifGuarded(&n.processes)    // process table (sync.Map)
+	lib.VerifGuarded(&n.names)
+	lib.VerifGuarded(&n.aliases)
 	monitor := lib.VerifParam("monitor", 0) == 1
 	notes := 0 // notifications sent to the consumer (saturates at 2: a closed domain for the unfolding)
 	bump := func() {
@@ -186,7 +198,12 @@ func VerifC04Race() {
 		return nil
 	})
 	lib.VerifOverride("(*ergo.services/ergo/node.node).RouteSendPID", func(nn *node, from gen.PID, to gen.PID, options gen.MessageOptions, message any) error {
-		if _, down := message.(gen.MessageDownPID); down && to == consumer.pid {
+		down := false
+		switch message.(type) {
+		case gen.MessageDownPID, gen.MessageDownProcessID, gen.MessageDownAlias:
+			down = true
+		}
+		if down && to == consumer.pid {
 			bump()
 		}
 		return nil
@@ -195,10 +212,19 @@ func VerifC04Race() {
 	gone := 0 // 1: the target's termination has completed
 	lib.VerifGo("requester", func() {
 		var err error
-		if monitor {
-			err = consumer.MonitorPID(target.pid)
-		} else {
+		switch {
+		case kind == 0 && !monitor:
 			err = consumer.LinkPID(target.pid)
+		case kind == 0:
+			err = consumer.MonitorPID(target.pid)
+		case kind == 1 && !monitor:
+			err = consumer.LinkProcessID(gen.ProcessID{Name: "t", Node: n.name})
+		case kind == 1:
+			err = consumer.MonitorProcessID(gen.ProcessID{Name: "t", Node: n.name})
+		case !monitor:
+			err = consumer.LinkAlias(alias)
+		default:
+			err = consumer.MonitorAlias(alias)
 		}
 		if err == nil {
 			lib.VerifSharedStore(&res, 1)
@@ -207,7 +233,7 @@ func VerifC04Race() {
 		}
 	})
 	lib.VerifGo("terminator", func() {
-		target.state = int32(gen.ProcessStateTerminated)
+		atomic.StoreInt32(&target.state, int32(gen.ProcessStateTerminated))
 		n.unregisterProcess(target, errVfReason)
 		lib.VerifSharedStore(&gone, 1)
 	})
